@@ -829,10 +829,15 @@ class PEuclidean(Pattern):
         self.mod = mod
         self.length = length
         self.sequence = []
+        self.phase = phase
         self.pos = phase
 
     def __repr__(self):
         return ("PEuclidean(%s, %s, %s)" % (self.mod, self.length, self.phase))
+
+    def reset(self):
+        super().reset()
+        self.pos = self.phase
 
     def __next__(self):
         length = self.value(self.length)
